@@ -35,7 +35,7 @@ SPEC = {
 
 MANIFEST = {
     "technique": "Lean 4 refinement proof (state machine = history-level IEC spec, sorted duplicate-free permutation) + differential correspondence against the real scheduler",
-    "level_text": "Theorems c06_config_refines / c06_task_refines / c06_executed_iff / c06_exec_sorted / c06_order_unique / c06_order_reading / c06_no_replay / c06_not_replayed / c06_due_time_exact / c06_lastP_latest / c06_overruns_closed_form / c06_missed_formula / c06_background_after hold for "
+    "level_text": "Theorems c06_config_refines / c06_task_refines / c06_executed_iff / c06_exec_sorted / c06_order_unique / c06_order_reading / c06_no_replay / c06_not_replayed / c06_due_time_exact / c06_lastP_latest / c06_overruns_closed_form / c06_missed_formula / c06_program_runs_iff / c06_background_every_cycle / c06_task_program_waits / c06_background_after hold for "
                   "every task set, every timeline and every cycle index (induction over the history, no bound). The model is a "
                   "function-by-function transcription of collect_ready_tasks, the sort key and execute_background_programs, and each "
                   "run executes it and the real runtime (built from CONFIGURATION source through the real compiler) on the same "
